@@ -152,6 +152,8 @@ def groups(tier, seed):
     for mode in (None, 'bfs', 'dfs'):
         for spelling in ('rel', 'abs'):
             yield {'kind': 'symdir', 'mode': mode, 'spelling': spelling, 'layer': 'symlinks-option'}
+    # a relative root whose name starts with `~` is a name, not the home directory
+    yield {'kind': 'tilde-root', 'layer': 'root-names'}
     # the root "/" explored inside a chroot jail
     for sh in core.tree_shapes(3 if tier == 'quick' else 4):
         tree = core.shape_to_tree(sh)
@@ -188,6 +190,8 @@ def groups(tier, seed):
 def single(case):
     if case.get('kind') == 'symdir':
         return {k: case[k] for k in ('kind', 'mode', 'spelling', 'layer')}
+    if case.get('kind') == 'tilde-root':
+        return {'kind': 'tilde-root', 'layer': 'root-names', 'only': case['argv']}
     return {'tree': case['tree'], 'cases': [{k: v for k, v in case.items() if k != 'tree'}],
             'jail': case.get('jail', False)}
 
@@ -293,9 +297,33 @@ def eval_symdir(env, group):
     return outs
 
 
+def eval_tilde(env, group):
+    holder = env.newdir('gt')
+    core.materialise(holder, {'~bak': D({'f': F(1), 'd': D({'g': F(1)})}), '~': D({'h': F(1)}), 'x~y': D({'i': F(1)}), 'plain': D({'j': F(1)})})
+    outs = []
+    try:
+        for argv, want in ((['path from ~bak into list'], ['~bak/f', '~bak/d', '~bak/d/g']), (["path from '~bak' into list"], ['~bak/f', '~bak/d', '~bak/d/g']),
+                           (['path', 'from', '~bak', 'into', 'list'], ['~bak/f', '~bak/d', '~bak/d/g']), (['path from x~y, ~bak maxdepth 1 into list'], ['x~y/i', '~bak/f', '~bak/d']),
+                           (['path from ./~ into list'], ['./~/h']), (['path from plain, ~bak/d into list'], ['plain/j', '~bak/d/g'])):
+            if group.get('only') is not None and argv != group['only']:
+                continue
+            o = env.run(argv, cwd=holder)
+            r = {'case': {'kind': 'tilde-root', 'argv': argv}, 'layer': 'root-names', 'nt': True, 'trans': len(want) + 1}
+            if o.rc != 0 or o.err or sorted(o.rows()) != sorted(want):
+                r.update(status='viol', cls='root-name-with-tilde', sig=('tilde',), detail=dict(o.brief(), argv=argv, expected=want))
+            else:
+                r.update(status='ok', sig=tuple(sorted(want)))
+            outs.append(r)
+    finally:
+        env.rmtree(holder)
+    return outs
+
+
 def eval_group(env, group, tier):
     if group.get('kind') == 'symdir':
         return eval_symdir(env, group)
+    if group.get('kind') == 'tilde-root':
+        return eval_tilde(env, group)
     tree = group['tree']
     if isinstance(tree, str):
         tree = scale_tree(tree)
